@@ -254,14 +254,19 @@ func TestVerifC10(t *testing.T) {
 	} else {
 		seen := map[string]int{}
 		for _, m := range msgs {
-			if i := strings.Index(m.Data, " :p-"); i >= 0 && strings.Contains(m.Data, "PRIVMSG #c") {
-				seen[m.Data[i+2:]]++
+			if i := strings.Index(m.Data, " PRIVMSG #c "); i >= 0 {
+				if p := strings.TrimPrefix(m.Data[i+len(" PRIVMSG #c "):], ":"); strings.HasPrefix(p, "p-") {
+					seen[p]++
+				}
 			}
 		}
 		for p, k := range seen {
 			if k > 1 {
 				viol("delivered-twice", fmt.Sprintf("payload %q delivered %d times to the observer", p, k))
 			}
+		}
+		if len(seen) == 0 {
+			rep.Broken("the observer's stream contains none of the posted payloads: the delivery oracle observed nothing")
 		}
 		rep.Obs("payloads-observed", len(seen))
 		rep.Cases(len(seen))
